@@ -499,8 +499,19 @@ def run(run):
     run.check("R3", read == ["quote"], "verify reads target quote", key="verify_sgx|targets-read", where=vs.loc(), message=f"verify_sgx reads {read}")
     EV = P.cls("sgx.envelope.SgxEnvelope")
     ei = P.method(EV, "__init__")
-    ef = {f.text() for f in F.exit_facts(ei, EV)}
-    run.check("R3", "envelope_bytes[offset:] == custom_message_bytes" in ef, "envelope tail must equal the fetched message",
+    ef = set(F.exit_texts(ei, EV, PV))
+    cm_p = ei.params[2]
+
+    def tail_cmp(t):
+        """<envelope>[<offset after the quote, the QE auth data and the QE cert data>:] == <custom message>"""
+        m_ = re.fullmatch(r"(.+) == (.+)", t)
+        if not m_:
+            return False
+        a_, b_ = m_.group(1), m_.group(2)
+        if a_ == cm_p:
+            a_, b_ = b_, a_
+        return b_ == cm_p and a_.startswith(f"{ei.params[1]}[") and a_.endswith(":]") and a_.count("get_total_bytelength()") >= 2 and "self.get_bytelength()" in a_
+    run.check("R3", any(tail_cmp(t) for t in ef), "envelope tail must equal the fetched message",
               key="SgxEnvelope.__init__|tail-check", where=ei.loc(), message="SgxEnvelope no longer rejects an embedded custom message that "
               "differs from the one fetched separately")
     cm = [n for n in A.own_nodes(ei) if isinstance(n, ast.Assign) and norm(n.targets[0]) == "self.custom_message"]
